@@ -35,12 +35,66 @@ def ignore_argument(ig):
             "dict": lambda xs: dict.fromkeys(xs, True)}[form](items)
 
 
+def statement_lines(text):
+    """the lines of a document that carry a statement (blank lines and comment lines are no input of read_pil_line)"""
+    return [l for l in text.split("\n") if l.strip() and not l.strip().startswith("#")]
+
+
+def check_lines(case):
+    """the document handed to read_pil_line one line at a time AS TEXT, in one session (nothing is cleared in between, every
+    returned object stays held), the whole pass repeated: every call returns an object of the configured classes or the
+    parsed line (ignored / uninterpreted lines), or raises a parse error / declared error; a line that is announced as
+    ignored, and every line of a document that must be read, returns; a line read again gives an outcome of the same kind"""
+    spec = case["by_line"]
+    lines = statement_lines(case["text"])
+    ignorable = set(spec.get("ignorable", []))
+    held, first = [], {}
+    for rnd in range(spec.get("repeat", 1)):
+        for k, l in enumerate(lines):
+            arg = "".join(list(l))            # equal, not identical, from call to call
+            where = f"read_pil_line({l!r}) (statement {k + 1} of {len(lines)}, pass {rnd + 1}, all earlier results held)"
+            try:
+                obj = objectio.read_pil_line(arg)
+            except ALLOWED as e:
+                if l in ignorable:
+                    return f"{where}: a line that is announced as ignored was refused: {type(e).__name__}: {e}"
+                if case.get("must_read") and rnd == 0:
+                    return f"{where}: a line of a valid document was refused: {type(e).__name__}: {e}"
+                first.setdefault(k, ("error", None))
+                continue
+            except RecursionError:
+                return None
+            except BaseException as e:
+                return f"{where} raised {type(e).__name__}: {e}"
+            if isinstance(obj, list):
+                if not obj or not isinstance(obj[0], str):
+                    return f"{where} returned the list {obj!r:.100}, which is not a parsed statement"
+                now = ("line", json.dumps(obj, default=str))
+            elif isinstance(obj, CLASSES):
+                if l in ignorable:
+                    return f"{where}: a line that is announced as ignored gave the object {obj!r:.100}"
+                now = ("object", type(obj).__name__ + ":" + str(obj.name))
+            else:
+                return f"{where} returned {type(obj).__name__}: neither an object of the reader's classes nor the parsed line"
+            was = first.setdefault(k, now)
+            if was[0] != "error" and was != now:
+                return f"{where} gave {now}, the same text gave {was} in the first pass"
+            held.append(obj)
+    return held
+
+
 def check(case):
     text = case["text"]
     kw = {"ignore": ignore_argument(case["ignore"])} if case.get("ignore") else {}
     given = repr(kw["ignore"]) if kw else None
     fresh()
     held = None
+    line_objects = None
+    if case.get("by_line"):
+        # ... and afterwards, with everything still held, the whole document is read as usual (clauses below)
+        line_objects = check_lines(case)
+        if not isinstance(line_objects, list):
+            return line_objects
     if case.get("prelude"):
         held = objectio.read_pil(case["prelude"])
         snapshot = sorted((k, n, id(o)) for k in ("domains", "strands", "complexes", "macrostates") for n, o in held[k].items())
